@@ -18,12 +18,12 @@ Proof. exact pack_fields. Qed.
 Print Assumptions C02_codec_roundtrip.
 
 (* For every forest of calls (any shape, recursion, any number of calls) whose nesting stays within
-   --max-stack and -D, every call taking at least one clock tick, no time threshold: the records the
+   --max-stack and -D, no time threshold (a call may take no clock tick at all): the records the
    thread writes are exactly the complete history - every ENTRY and EXIT, in execution order, nothing
    missing, spurious, duplicated or reordered, depth = number of open calls - for both the
    -pg/fentry/PLT shape and the -finstrument-functions shape. *)
 Theorem C02_trace_is_history : forall gd ms sh f,
-  all_timed f -> all_positive f -> heights f <= ms -> heights f <= gd ->
+  all_timed f -> heights f <= ms -> heights f <= gd ->
   out (fst (exec (plain 0 gd ms sh) (flat_forest f) (init, []))) = flat_map (history 0) f.
 Proof. exact history_recorded. Qed.
 Print Assumptions C02_trace_is_history.
@@ -55,11 +55,11 @@ Proof. exact recorded_stream_paired. Qed.
 Print Assumptions C02_matching_addresses.
 
 (* Stacks deeper than --max-stack (and/or -D): for ANY limits gd, ms and any forest (no bound on its
-   height), with every call taking at least one tick and no threshold, the -pg/fentry/PLT shape records
+   height), with no threshold, the -pg/fentry/PLT shape records
    exactly the calls nested less deep than min(gd, ms) - deeper calls are dropped whole, and nothing else
    is changed, whatever the overflow flush of mcount_check_rstack does in between.
    (The cygprof shape: C02_deeper_dropped_not_corrupted_cyg below.) *)
-Theorem C02_deeper_dropped_not_corrupted : forall gd ms f, all_timed f -> all_positive f ->
+Theorem C02_deeper_dropped_not_corrupted : forall gd ms f, all_timed f ->
   out (fst (exec (plain 0 gd ms PG) (flat_forest f) (init, []))) = flat_map (recs 0 (N.min gd ms) 0) f.
 Proof. exact run_forest'. Qed.
 Print Assumptions C02_deeper_dropped_not_corrupted.
@@ -92,19 +92,19 @@ Print Assumptions C02_depth_overflow_refuted.
    is exactly the history of the calls nested less deep than min(gd, ms, 1024): a deeper call is dropped whole,
    ENTRY and EXIT, with everything below it; and the readers decode each remaining record unchanged ([disk] =
    the records as seen through the bit-field layout; addresses are 48-bit). *)
-Theorem C02_beyond_depth_field_dropped : forall gd ms f, all_timed f -> all_positive f ->
+Theorem C02_beyond_depth_field_dropped : forall gd ms f, all_timed f ->
   filter storable (out (fst (exec (plain 0 gd ms PG) (flat_forest f) (init, [])))) =
   flat_map (recs 0 (N.min (N.min gd ms) 1024) 0) f.
 Proof. exact deep_calls_dropped. Qed.
 Print Assumptions C02_beyond_depth_field_dropped.
 
-Theorem C02_beyond_depth_field_dropped_cyg : forall gd ms f, ms <= gd -> all_timed f -> all_positive f ->
+Theorem C02_beyond_depth_field_dropped_cyg : forall gd ms f, ms <= gd -> all_timed f ->
   filter storable (out (fst (exec (plain 0 gd ms CYG) (flat_forest f) (init, [])))) =
   flat_map (recs 0 (N.min ms 1024) 0) f.
 Proof. exact deep_calls_dropped_cyg. Qed.
 Print Assumptions C02_beyond_depth_field_dropped_cyg.
 
-Theorem C02_beyond_depth_field_on_disk : forall gd ms f, all_timed f -> all_positive f ->
+Theorem C02_beyond_depth_field_on_disk : forall gd ms f, all_timed f ->
   Forall (fun r => r_addr r < 281474976710656) (out (fst (exec (plain 0 gd ms PG) (flat_forest f) (init, [])))) ->
   disk (out (fst (exec (plain 0 gd ms PG) (flat_forest f) (init, [])))) =
   map ideal (flat_map (recs 0 (N.min (N.min gd ms) 1024) 0) f).
@@ -212,17 +212,17 @@ Print Assumptions C02_same_stream_for_every_method.
 
 (* The same under -finstrument-functions / XRay, where a call beyond --max-stack only counts in mtdp->idx: for any
    --max-stack ms not above the depth limit (the default -D is far above it), any forest (no bound on its height),
-   every call taking at least one tick, no threshold: exactly the calls nested less deep than ms are recorded, deeper
+   no threshold: exactly the calls nested less deep than ms are recorded, deeper
    ones are dropped whole, and the overflow flush of mcount_check_rstack (which happens once per descent below the
    limit, never with such a counted-only call on the stack) changes nothing else. *)
-Theorem C02_deeper_dropped_not_corrupted_cyg : forall gd ms, ms <= gd -> forall f, all_timed f -> all_positive f ->
+Theorem C02_deeper_dropped_not_corrupted_cyg : forall gd ms, ms <= gd -> forall f, all_timed f ->
   out (fst (exec (plain 0 gd ms CYG) (flat_forest f) (init, []))) = flat_map (recs 0 ms 0) f.
 Proof. exact run_forest_cyg. Qed.
 Print Assumptions C02_deeper_dropped_not_corrupted_cyg.
 
 (* A thread that ends in pthread_exit() with calls still open: under the plain configuration, any instrumentation shape,
    inside the limits -D and --max-stack, after ANY well-bracketed sequence of entries and exits ([wfev]: every entry
-   inside the limits at a clock reading in (0, 2^64), every exit later than its entry) the records the thread leaves -
+   inside the limits at a clock reading in (0, 2^64), no exit earlier than its entry) the records the thread leaves -
    what it wrote plus what libmcount's pthread_exit wrapper flushes for the open calls - are exactly its history: an
    ENTRY for every call entered, an EXIT for every call left, in order, depth = number of open calls. *)
 Theorem C02_pthread_exit_leaves_history : forall gd ms sh es, wfev gd ms es [] ->
